@@ -68,6 +68,7 @@ type vfFbStep struct {
 	ECN  uint8  `json:"ecn"`
 	Max  int    `json:"max"`
 	Fbs  []vfFb `json:"fbs"`
+	Via  uint32 `json:"via"`  // run: != 0 - the packets (header SSRC = ssrc) go through the writer bound for stream `via` (RTX / FEC)
 	Loop bool   `json:"loop"` // run: loopback transport - feedback about each packet is read while its Write is still in progress
 }
 
@@ -304,6 +305,10 @@ func (e *vfRtpfbEnv) loopFb(st *vfFbStep, i int, at int64) []rtcp.Packet {
 
 func (e *vfRtpfbEnv) run(st *vfFbStep) {
 	hsz := 0
+	bs := st.SSRC // the stream whose bound writer carries the packets
+	if st.Via != 0 {
+		bs = st.Via
+	}
 	for i := 0; i < st.N; i++ {
 		hdr := rtp.Header{Version: 2, SSRC: st.SSRC, SequenceNumber: st.Seq + uint16(i)} //nolint:gosec
 		attrs := interceptor.Attributes{}
@@ -312,15 +317,15 @@ func (e *vfRtpfbEnv) run(st *vfFbStep) {
 			if err != nil {
 				e.t.Fatalf("VERIF-INFRA twcc ext: %v", err)
 			}
-			if err = hdr.SetExtension(vfTwccExtID(st.SSRC), ext); err != nil {
+			if err = hdr.SetExtension(vfTwccExtID(bs), ext); err != nil {
 				e.t.Fatalf("VERIF-INFRA set ext: %v", err)
 			}
-			attrs.Set(cc.TwccExtensionAttributesKey, vfTwccExtID(st.SSRC))
+			attrs.Set(cc.TwccExtensionAttributesKey, vfTwccExtID(bs))
 		}
 		hsz = hdr.MarshalSize()
-		w := e.writer(st.SSRC, st.Twcc)
+		w := e.writer(bs, st.Twcc)
 		if e.twin != nil { // the other connection sends a look-alike (same numbers, another size, another time) just before
-			k := [2]uint32{st.SSRC, 0}
+			k := [2]uint32{bs, 0}
 			if st.Twcc {
 				k[1] = 1
 			}
